@@ -17,6 +17,7 @@ import (
 	"verifharness/gen"
 	"verifharness/lang"
 	"verifharness/ref"
+	"verifharness/refx"
 )
 
 func TestMain(m *testing.M) { ev.Main(m, "C01") }
@@ -91,7 +92,27 @@ type verdict struct {
 
 // decide runs the reference under every policy and the code under test, and
 // compares. It returns a discard reason, or a failure message, or neither.
+// decide is decideOnce plus the exhaustive domain check on the failure path:
+// the four fixed policies of the fast filter cannot show every dependence on
+// map order (a three-key map has six orders), so before a mismatch is
+// reported the reference is run under every order of every map traversal and
+// every capacity behaviour (refx.AllOutcomes); a program with more than one
+// outcome there is outside C01's domain.
 func decide(p *lang.Program, inputs map[string]*lang.Val, hostMod bool) verdict {
+	v := decideOnce(p, inputs, hostMod)
+	if v.fail != "" && v.res != nil && v.res.Status != "panic" && v.res.Status != "timeout" {
+		cfg := ref.DefaultConfig()
+		if hostMod {
+			cfg.HostMods = bridge.HostModRef()
+		}
+		if refx.OrderDependent(p, inputs, cfg) {
+			return verdict{discard: "excluded:capacity-or-map-order-dependent (exhaustive enumeration after a mismatch)", ref: v.ref}
+		}
+	}
+	return v
+}
+
+func decideOnce(p *lang.Program, inputs map[string]*lang.Val, hostMod bool) verdict {
 	var outs []*ref.Outcome
 	for _, pol := range ref.Policies {
 		o := refRun(p, inputs, pol, hostMod)
